@@ -8,9 +8,23 @@ use std::sync::{Arc, Mutex};
 
 type Files = Arc<Mutex<BTreeMap<String, Vec<u8>>>>;
 
+/// A read-side I/O fault pinned to one file (the bytes of the file are untouched).
+#[derive(Clone, Copy, Debug, PartialEq, Eq)]
+pub enum ReadFault {
+    /// open_read fails with an I/O error (EIO / EACCES)
+    OpenIo,
+    /// open_read reports NotFound although the file is listed (deleted in between)
+    OpenNotFound,
+    /// the file opens, read_all fails with an I/O error
+    ReadIo,
+    /// the file opens, read_all returns only the first k bytes (short read)
+    ReadShort(usize),
+}
+
 #[derive(Clone, Default)]
 pub struct ImgStore {
     files: Files,
+    read_faults: Arc<Mutex<BTreeMap<String, ReadFault>>>,
 }
 
 impl ImgStore {
@@ -29,10 +43,22 @@ impl ImgStore {
     pub fn names(&self) -> Vec<String> {
         self.files.lock().unwrap().keys().cloned().collect()
     }
-    /// An independent copy (own file map).
+    /// An independent copy (own file map, no faults).
     pub fn deep_copy(&self) -> ImgStore {
         ImgStore {
             files: Arc::new(Mutex::new(self.files.lock().unwrap().clone())),
+            read_faults: Default::default(),
+        }
+    }
+    pub fn set_read_fault(&self, name: &str, f: Option<ReadFault>) {
+        let mut g = self.read_faults.lock().unwrap();
+        match f {
+            Some(f) => {
+                g.insert(name.to_string(), f);
+            }
+            None => {
+                g.remove(name);
+            }
         }
     }
 }
@@ -61,11 +87,19 @@ impl WalFileWriter for ImgWriter {
 
 pub struct ImgReader {
     data: Vec<u8>,
+    fault: Option<ReadFault>,
 }
 
 impl WalFileReader for ImgReader {
     fn read_all(&mut self) -> Result<Vec<u8>, WalError> {
-        Ok(self.data.clone())
+        match self.fault {
+            Some(ReadFault::ReadIo) => Err(WalError::Io(std::io::Error::new(
+                std::io::ErrorKind::Other,
+                "injected read failure (EIO)",
+            ))),
+            Some(ReadFault::ReadShort(k)) => Ok(self.data[..k.min(self.data.len())].to_vec()),
+            _ => Ok(self.data.clone()),
+        }
     }
 }
 
@@ -82,8 +116,19 @@ impl WalStore for ImgStore {
         })
     }
     fn open_read(&self, name: &str) -> Result<ImgReader, WalError> {
+        let fault = self.read_faults.lock().unwrap().get(name).copied();
+        match fault {
+            Some(ReadFault::OpenIo) => {
+                return Err(WalError::Io(std::io::Error::new(
+                    std::io::ErrorKind::PermissionDenied,
+                    "injected open failure (EACCES)",
+                )))
+            }
+            Some(ReadFault::OpenNotFound) => return Err(WalError::NotFound(name.to_string())),
+            _ => {}
+        }
         match self.files.lock().unwrap().get(name) {
-            Some(d) => Ok(ImgReader { data: d.clone() }),
+            Some(d) => Ok(ImgReader { data: d.clone(), fault }),
             None => Err(WalError::NotFound(name.to_string())),
         }
     }
